@@ -1,0 +1,86 @@
+//go:build verif
+// +build verif
+
+// Verification shim for property C16, part 3 (add-only): the refresh debouncer with a gated refresh
+// function, so that a refresh request can be placed while a refresh is in flight.
+
+package gocql
+
+import (
+	"sync"
+	"time"
+)
+
+// VerifC16RefreshGate controls a refreshDebouncer whose refresh function does its work, then reports
+// "in flight" and waits for Release before it returns.
+type VerifC16RefreshGate struct {
+	mu      sync.Mutex
+	d       *refreshDebouncer
+	trace   []int // 0 = request, 1 = refresh started, 2 = refresh ended
+	started chan struct{}
+	gate    chan struct{}
+}
+
+func (g *VerifC16RefreshGate) log(k int) {
+	g.mu.Lock()
+	g.trace = append(g.trace, k)
+	g.mu.Unlock()
+}
+
+// Trace returns the events so far: 0 request, 1 refresh start, 2 refresh end.
+func (g *VerifC16RefreshGate) Trace() []int {
+	g.mu.Lock()
+	defer g.mu.Unlock()
+	return append([]int(nil), g.trace...)
+}
+
+func (g *VerifC16RefreshGate) fn(work func() error) func() error {
+	return func() error {
+		g.log(1)
+		err := work()
+		g.started <- struct{}{}
+		<-g.gate
+		g.log(2)
+		return err
+	}
+}
+
+// VerifC16NewRefreshGate: a free-standing real refreshDebouncer with the given interval.
+func VerifC16NewRefreshGate(interval time.Duration) *VerifC16RefreshGate {
+	g := &VerifC16RefreshGate{started: make(chan struct{}, 64), gate: make(chan struct{}, 64)}
+	g.d = newRefreshDebouncer(interval, g.fn(func() error { return nil }))
+	return g
+}
+
+// VerifC16GateRingRefresh replaces the session's ring refresher by a real refreshDebouncer (given
+// interval) whose refresh function runs refreshRing and then stays in flight until released.
+func VerifC16GateRingRefresh(s *Session, interval time.Duration) *VerifC16RefreshGate {
+	g := &VerifC16RefreshGate{started: make(chan struct{}, 64), gate: make(chan struct{}, 64)}
+	old := s.ringRefresher
+	g.d = newRefreshDebouncer(interval, g.fn(func() error { return refreshRing(s.hostSource) }))
+	s.ringRefresher = g.d
+	old.stop()
+	return g
+}
+
+// Request is refreshDebouncer.debounce (what Session.debounceRingRefresh does).
+func (g *VerifC16RefreshGate) Request() { g.log(0); g.d.debounce() }
+
+// NoteRequest records a request made through the session (handleNodeEvent) in the trace.
+func (g *VerifC16RefreshGate) NoteRequest() { g.log(0) }
+
+// WaitInFlight waits until a refresh has done its work and is held; false on timeout.
+func (g *VerifC16RefreshGate) WaitInFlight(d time.Duration) bool {
+	select {
+	case <-g.started:
+		return true
+	case <-time.After(d):
+		return false
+	}
+}
+
+// Release lets one held refresh return.
+func (g *VerifC16RefreshGate) Release() { g.gate <- struct{}{} }
+
+// Stop stops a free-standing debouncer (a session stops its own in Close).
+func (g *VerifC16RefreshGate) Stop() { g.d.stop() }
